@@ -9,7 +9,10 @@ TRUSTED = ["Coq 8.16.1 kernel (coqc); vm_compute for the correspondence runs; no
            "hand-written model coq/theories/Model/{Bits,Scalar,Vec,Atomic,Op,Expr}.v tied to /repo only by the "
            "correspondence check (harness/ + tools/opscheck.py, cfg hooks verif_raw/verif_from_raw)",
            "float/real gap: theorems over R, model run at binary64, comparison at 1e-9",
-           "numpy oracle (tools/opexpr.py) used only to search for a failing input after a disagreement"]
+           "numpy oracle (tools/opexpr.py) used only to search for a failing input after a disagreement",
+           "implementation-against-itself comparisons that need no model: every case on the harness's shared thread and again on a "
+           "thread of its own (results must be identical); every executed program also on the simulator the previous case left "
+           "behind (Sym::init + reset + finish) and its accessors / Sym::measure probed on a copy"]
 
 
 def _tup(x):
